@@ -632,3 +632,83 @@ func segmentLocals(f *fn, body *ast.BlockStmt, segs *types.Var) map[types.Object
 	})
 	return out
 }
+
+func init() {
+	register(&core.Rule{ID: "C10.18", Prop: "C10", MinSites: 10,
+		Desc: "the elastic ring delegates by name: every method of elastic.RingBuffer that has a namesake on ring.Buffer hands its own parameters, in order, to that namesake of the pooled ring (b.rb, or b.instance() for the methods that store) in every call it makes on the ring – Buffered does not answer with Len, Peek does not forward a different count, Write does not go to WriteByte – and makes such a call",
+		Run:  runC10_18})
+}
+
+func runC10_18(c *core.Ctx) {
+	rbT, _ := c.P.Object("pkg/buffer/elastic", "RingBuffer").(*types.TypeName)
+	ringT, _ := c.P.Object("pkg/buffer/ring", "Buffer").(*types.TypeName)
+	rbF := c.P.Field("pkg/buffer/elastic", "RingBuffer", "rb")
+	inst := c.P.Func("pkg/buffer/elastic", "RingBuffer.instance")
+	if !c.Need("elastic.RingBuffer", rbT) || !c.Need("ring.Buffer", ringT) || !c.Need("RingBuffer.rb", rbF) || !c.Need("RingBuffer.instance", inst) {
+		return
+	}
+	ringMethods := map[string]bool{}
+	ms := types.NewMethodSet(types.NewPointer(ringT.Type()))
+	for i := 0; i < ms.Len(); i++ {
+		ringMethods[ms.At(i).Obj().Name()] = true
+	}
+	allFuncs(c, func(f *fn) {
+		sig, _ := f.Obj.Type().(*types.Signature)
+		if sig == nil || sig.Recv() == nil || f.Decl.Body == nil {
+			return
+		}
+		rt := sig.Recv().Type()
+		if p, ok := rt.(*types.Pointer); ok {
+			rt = p.Elem()
+		}
+		if n, ok := rt.(*types.Named); !ok || n.Obj() != rbT {
+			return
+		}
+		name := nameOf(f.Obj)
+		if !ringMethods[name] || !f.Obj.Exported() {
+			return
+		}
+		// calls on the ring: b.rb.X(…) / b.instance().X(…)
+		onRing := func(call *ast.CallExpr) (string, bool) {
+			sel, ok := ast.Unparen(call.Fun).(*ast.SelectorExpr)
+			if !ok {
+				return "", false
+			}
+			recv := seeThrough(f, sel.X)
+			if flow.FieldOf(f.Info, recv) == rbF {
+				if m, ok := f.Info.Uses[sel.Sel].(*types.Func); ok {
+					return nameOf(m), true
+				}
+			}
+			if ic, ok := recv.(*ast.CallExpr); ok && flow.IsCall(f.Info, ic, inst) {
+				if m, ok := f.Info.Uses[sel.Sel].(*types.Func); ok {
+					return nameOf(m), true
+				}
+			}
+			return "", false
+		}
+		k, delegated := 0, false
+		for _, call := range callsIn(f.Decl.Body, false) {
+			m, ok := onRing(call)
+			if !ok {
+				continue
+			}
+			if m == "IsEmpty" && name != "IsEmpty" {
+				continue // the emptiness test that decides whether the ring goes back to the pool
+			}
+			k++
+			good := m == name && len(call.Args) == sig.Params().Len()
+			if good {
+				for i, a := range call.Args {
+					if flow.ObjOf(f.Info, a) != types.Object(f.param(i)) {
+						good = false
+					}
+				}
+			}
+			delegated = delegated || good
+			c.Check(good, f.Name, "call on the ring #"+itoa(k), call.Pos(), "delegates to ring.Buffer."+name+" with its own parameters",
+				"elastic.RingBuffer."+name+" calls ring.Buffer."+m+" (or passes something other than its own parameters in order): the elastic wrapper answers with a different operation's result than the ring it wraps")
+		}
+		c.Check(delegated, f.Name, "delegation", f.Decl.Pos(), "reaches its namesake on the ring", "elastic.RingBuffer."+name+" never calls ring.Buffer."+name+" on its ring: the operation is answered without consulting the buffer's content")
+	})
+}
